@@ -9,6 +9,9 @@ notation with plain loops) is support for the failing-input search only.
 import random
 import re
 
+import types
+
+import c02extra
 import emit
 import t1
 import vlib
@@ -17,8 +20,8 @@ from m3 import M3, SQ2, q
 
 PROPS = ["TfelVerif.C02." + m for m in (
     "PropsT", "PropsN1", "Props2ST", "Props2TT", "Props2TS", "Props2S2T", "Props3ST", "Props3TT", "Props3TS", "Props3S2T",
-    "PropsPF", "PropsCB", "PropsConv", "Props")]
-PARTS = [1, 2, 3, 4, 5]     # -DC02_PART=<k> (see main() of the tracer)
+    "PropsPF", "PropsCB", "PropsConv", "PropsX", "Props")]
+PARTS = [1, 2, 3, 4, 5, 6]     # -DC02_PART=<k> (see main() of the tracer); 6 = harness/C02/trace_extra.hxx
 REPO_SRC = ["/src/Exception/ContractViolation.cxx", "/src/Exception/TFELException.cxx", "/src/Math/MathException.cxx",
             "/src/Math/TensorConcept.cxx"]
 
@@ -27,6 +30,8 @@ def group_of(name):
     """generated module of a traced unit"""
     m = re.match(r"N(\d)_([a-z0-9]+)_(.*)", name)
     n, fam, op = m.group(1), m.group(2), m.group(3)
+    if fam + "_" + op in c02extra.EXTRA_OPS:
+        return "GenX"
     if fam == "t":
         return "GenT"
     if op in ("push_forward", "pull_back"):
@@ -306,6 +311,7 @@ def tensor_specs():
 def specs_for(units):
     table = dict(fourth_specs())
     table.update(tensor_specs())
+    table.update(c02extra.extra_specs(types.SimpleNamespace(**globals())))
     S = {}
     for u in units:
         m = re.match(r"N(\d)_(.*)", u.name)
@@ -340,7 +346,9 @@ def unit_of_theorem(thm, names):
 
 def run(ck):
     srcs = ["C02/trace.cxx"] + [vlib.REPO + s for s in REPO_SRC]
-    bins = ck.cxx_many([("c02trace%d" % p, srcs, ("-DC02_PART=%d" % p,)) for p in PARTS], opt="-O0")
+    nsrcs = ["C02/numeric.cxx"] + [vlib.REPO + s for s in REPO_SRC + ["/src/Math/LUException.cxx"]]
+    bins = ck.cxx_many([("c02trace%d" % p, srcs, ("-DC02_PART=%d" % p,)) for p in PARTS]
+                       + [("c02numeric", nsrcs, ())], opt="-O0")
     units, by_bin, text = [], {}, ""
     for p in PARTS:
         b = bins["c02trace%d" % p]
@@ -395,6 +403,11 @@ def run(ck):
             # theorem of its own): either the python reference or the statement is wrong — never silent
             ck.violation("search-oracle:" + f["unit"], "exact evaluation of traced unit %s disagrees with the python "
                          "reference although no theorem about it failed" % f["unit"], f, True)
+    # double precision differential harness (polar_decomposition 2D/3D, invert / det of st2tost2): the property's
+    # own predicate evaluated in exact rational arithmetic on the answers of the real code
+    nviol, nstats = c02extra.run_numeric(ck, bins["c02numeric"], random.Random(1000 + ck.seed))
+    for key, what, rep in nviol:
+        ck.violation(key, what, rep, True)
     if ck.tier == "thorough" and res.ok:
         for m, log in ck.leanchecker(PROPS):
             ck.violation("leanchecker:" + m, "leanchecker rejects " + m, {"log": log}, False)
@@ -402,7 +415,10 @@ def run(ck):
         "T1: g++ instantiating TFEL with verif::Sym performs the same scalar operations as with double; sym.hxx/glue.hxx/emit.py are correct",
         "exact field semantics: rounding, overflow, underflow not modelled",
         "conventions fixed by the code and taken as the specification: change_basis(.,R) is R^T . R; storage orders and Mandel weights of docs/web/tensors.md",
-        "partial: polar_decomposition only in 1D (2D/3D go through stensor::computeEigenValues: C03); invert(st2tost2), det(st2tost2/t2tot2) for N>1 use a pivoting LU (TinyMatrixInvert/LUDecomp): C07",
+        "polar_decomposition in 2D/3D (eigen-solver), invert(st2tost2) and det(st2tost2) for N>1 (pivoting LU) are not "
+        "proved: they are run in double precision on seeded well-conditioned inputs and the property's predicate "
+        "(R^T R = 1, det R > 0, U symmetric positive definite, R U = F; A invert(A) = invert(A) A = Id; det against an "
+        "exact cofactor expansion) is evaluated in rational arithmetic with residual bounds 1e-9 / 1e-11 (observed < 1e-13)",
         "3D change_basis of st2tost2/t2tot2/t2tost2 and pull_back are stated as compositions of traced units that are themselves proved in index notation",
     ]
     missing = [u.name for u in units if u.name not in S]
@@ -412,6 +428,6 @@ def run(ck):
         "evaluations": stats["points"], "distinct_nontrivial": stats["points"],
         "rule": "each traced unit evaluated exactly over Q(sqrt2) at seeded random rational stored components and compared "
                 "with an independent index-notation reference (plain loops over Fin 3 indices); distinct = points",
-        "search_stats": stats, "units_without_reference": missing,
+        "search_stats": stats, "units_without_reference": missing, "numeric_harness": nstats,
         "samples": [{"unit": u.name, "inputs": u.inputs[:12], "outputs": [o for o, _ in u.outs][:12]} for u in units[:3]],
     })
